@@ -30,7 +30,7 @@ def main():
     suite = "--no-suite" not in sys.argv
     tier = "thorough" if "--thorough" in sys.argv else "quick"
     name = os.path.basename(os.path.normpath(src))
-    wt = "/tmp/wt-seedtest-%s-%d" % (name, os.getpid())
+    wt = "/var/tmp/wt-seedtest-%s-%d" % (name, os.getpid())
     sh("git -C /repo worktree add -q --detach %s HEAD" % wt)
     res = dict(name=name, property=prop, ran=time.strftime("%Y-%m-%d %H:%M:%S"))
     env = dict(os.environ, PYTHONPATH=wt, PYTHONDONTWRITEBYTECODE="1")
@@ -58,9 +58,10 @@ def main():
         res["demo_patched_rc"] = rc
         res["demo_patched_out"] = out[-600:]
         if suite:
-            # one suite at a time: concurrent suite runs collide on the suite's fixed /tmp fixture names
-            rc, out = sh("flock /tmp/verif-suite.lock python3 %s/harness/baseline.py" % VERIF, env=dict(os.environ, VERIF_REPO=wt),
-                         timeout=6000)
+            # concurrent suite runs collide on the suite's fixed /tmp fixture names: each run gets a /tmp of its
+            # own (private mount namespace; the worktree lives under /var/tmp)
+            rc, out = sh("unshare -m sh -c 'mount -t tmpfs tmpfs /tmp && exec python3 %s/harness/baseline.py'" % VERIF,
+                         env=dict(os.environ, VERIF_REPO=wt), timeout=6000)
             res["suite_rc"] = rc
             res["suite_tail"] = out[-300:]
         os.unlink(os.path.join(wt, "demo.py"))
